@@ -46,7 +46,7 @@ int vnacal_new_set_pvalue_limit(vnacal_new_t *vnp, double significance)
 	return -1;
     }
     vcp = vnp->vn_vcp;
-    if (significance <= 0.0 || significance > 1.0) {
+    if (!(significance > 0.0 && significance <= 1.0)) {
 	_vnacal_error(vcp, VNAERR_USAGE, "vnacal_new_set_pvalue_limit: "
 		"significance must be between 0 and 1");
 	return -1;
